@@ -217,6 +217,73 @@ def in_scenario(case):
     return uses_evm(SHAPES[v["shape"]]) or bool(ms & INFRAME_TOKEN_WRITERS)
 
 
+def tier_cases(tier):
+    shapes, variants, _ = TIERS[tier]
+    return sorted(case_id(s, v) for s in shapes for v in variants)
+
+
+def consts(ids):
+    return dict(ProgId=ids, MaxNat=MAXNAT, MaxEvm=MAXEVM, MaxTx=1)
+
+
+def harness_const(ids, cuts_file, mode):
+    # the shapes themselves are compiled into the harness (harness/frames/cases.json, written by --emit)
+    return dict(chain="x", ids=ids, cuts=cuts_file, cutmode=mode)
+
+
+def emit_cases():
+    return json.dumps({c: dict(frames=v["frames"], methods=v["methods"]) for c, v in sorted(ALL_CASES.items())}, indent=0, sort_keys=True) + "\n"
+
+
+GENERATED = {os.path.join(vlib.SPEC, "FramesMC.tla"): emit_mc, os.path.join(vlib.HARNESS, "frames", "cases.json"): emit_cases}
+
+
+def check_generated():
+    for path, fn in GENERATED.items():
+        if not os.path.exists(path) or open(path).read() != fn():
+            raise Infra("%s is out of date: run python3 bin/spec_frames.py --emit" % path)
+
+
+def profile(work, binary, ids, mode, shards):
+    """pre-pass: measures, for every case, the out-of-gas classes; returns ({case: [pattern]}, cuts file)."""
+    t0 = time.time()
+    hc = json.dumps(harness_const(ids, "", mode))
+    pending, running, table = list(range(shards)), {}, {}
+    while pending or running:
+        while pending:
+            held = vlib.acquire_slots(1, block=not running)
+            if held is None:
+                break
+            i = pending.pop(0)
+            out = work.path("profile-%d.json" % i)
+            p = vlib.run_harness(work, binary, "TestProfile", dict(VERIF_CONST=hc, VERIF_SHARD=i, VERIF_SHARDS=shards, VERIF_PROFILE_OUT=out),
+                                 work.path("profile-%d.log" % i))
+            running[i] = (p, held, out)
+        done = [i for i, (p, _, _) in running.items() if p.poll() is not None]
+        if not done:
+            time.sleep(0.3)
+            continue
+        for i in done:
+            p, held, out = running.pop(i)
+            vlib.release_slots(held)
+            if p.returncode != 0 or not os.path.exists(out):
+                for q, h, _ in running.values():
+                    q.kill()
+                    vlib.release_slots(h)
+                raise Infra("profiling shard %d failed:\n%s" % (i, open(work.path("profile-%d.log" % i), errors="replace").read()[-3000:]))
+            table.update(json.load(open(out)))
+            os.remove(out)
+    missing = [c for c in ids if c not in table]
+    if missing:
+        raise Infra("profiling produced no result for %s" % missing[:5])
+    cuts_file = work.path("frames-cuts.json")
+    json.dump(table, open(cuts_file, "w"))
+    classes = {c: [cl["oog"] for cl in table[c]["classes"]] for c in ids}
+    nl = sum(len(cl["L"]) for c in ids for cl in table[c]["classes"])
+    log("profiling: %d cases, %d out-of-gas classes, %d gas limits, %.0fs" % (len(ids), sum(len(v) for v in classes.values()), nl, time.time() - t0))
+    return classes, cuts_file, nl
+
+
 def known_scenario():
     return any(SCENARIO_ID in (f if isinstance(f, str) else json.dumps(f)) for f in vlib.known_findings())
 
